@@ -421,10 +421,10 @@ func bigTerm(t target, q *reqSpec, pre, post *obsEntry, status string, hit bool,
 			slices = append(slices, fmt.Sprintf("(%s, %s, %s)", hx.N(uint64(a)), hx.N(uint64(b)), hx.N(crc(q.body[a:b]))))
 		}
 	}
-	return fmt.Sprintf("Big {| bc_method := %s; bc_append := %s; bc_etc := %s; bc_maxmb_q := %s; bc_maxmb_opt := %s; bc_limit := %s; bc_len := %s; bc_end := %s; bc_upfail := %s; bc_slices := %s; bc_md5tab := %s; bc_parent_file := %s; bc_pre := %s; bi_status := %s; bi_code := %s; bi_upfail_hit := %s; bi_post := %s |}",
+	return fmt.Sprintf("Big {| bc_method := %s; bc_append := %s; bc_etc := %s; bc_maxmb_q := %s; bc_maxmb_opt := %s; bc_limit := %s; bc_len := %s; bc_end := %s; bc_upfail := %s; bc_slices := %s; bc_md5tab := %s; bc_parent_file := %s; bc_pre := %s; bc_pre_dir := %s; bi_status := %s; bi_code := %s; bi_upfail_hit := %s; bi_post := %s; bi_post_dir := %s |}",
 		methodName[q.method], hx.Bool(q.app), hx.Bool(t.etc), hx.Z(int64(q.maxmbQ)), hx.Z(int64(q.maxmbOpt)), hx.Z(q.limit),
 		hx.N(uint64(len(q.body))), endingOf(q), hx.List(q.upfail()), hx.List(slices), hx.List(tab),
-		hx.Bool(t.parentFile), coqSummary(pre), status, hx.N(uint64(code)), hx.Bool(hit), coqSummary(post))
+		hx.Bool(t.parentFile), coqSummary(pre), hx.Bool(pre != nil && pre.isDir), status, hx.N(uint64(code)), hx.Bool(hit), coqSummary(post), hx.Bool(post != nil && post.isDir))
 }
 
 func canonEntry(pre *obsEntry) string {
@@ -854,7 +854,7 @@ func (g *gen) bigSequence(r *hx.Rng) {
 }
 
 // the inputs on which the unrepaired code violated the property (former findings
-// 0-3): emitted first, independent of the seed; they must now be plain ok cases.
+// 0-3 and the former finding append-onto-directory): emitted first, independent of the seed; they must now be plain ok cases.
 func (g *gen) witnesses() {
 	// former k=0: a body read error must fail the request (499) and commit nothing
 	g.emit(g.newTarget(false, "f"), &reqSpec{method: mPut, cs: 2, body: []byte{1, 2, 3}, ending: endErr}, "witness0")
@@ -875,16 +875,18 @@ func (g *gen) witnesses() {
 	}
 	g.emit(g.newTarget(false, "f"), &reqSpec{big: true, method: mPut, maxmbOpt: 1, body: body, ending: endErr}, "witness0")
 	g.emit(g.newTarget(true, "f"), &reqSpec{big: true, method: mPut, maxmbOpt: 1, body: body}, "witness2")
-	// finding 0: ?op=append resolved to a DIRECTORY (multipart POST without a file
-	// name onto a directory path): 201 and the chunks hang on the directory entry
+	// former finding c25-append-onto-directory: ?op=append resolved to a DIRECTORY
+	// (multipart POST without a file name onto a directory path) was answered 201
+	// with the chunks on the directory entry; must now fail (500), leave the
+	// directory untouched and hand the uploaded chunks to DeleteChunks
 	t = g.newTarget(false, "d")
 	g.w.createDir(t.path())
-	g.emit(t, &reqSpec{method: mPostFormPath, cs: 2, body: []byte{1, 2, 3}, app: true}, "finding0")
+	g.emit(t, &reqSpec{method: mPostFormPath, cs: 2, body: []byte{1, 2, 3}, app: true}, "witness4")
 	// the same through PUT: /d and /d/d are both directories
 	t = g.newTarget(false, "d")
 	g.w.createDir(t.path())
 	g.w.createDir(t.path() + "/d")
-	g.emit(t, &reqSpec{method: mPut, cs: 2, body: []byte{1, 2, 3}, app: true}, "finding0")
+	g.emit(t, &reqSpec{method: mPut, cs: 2, body: []byte{1, 2, 3}, app: true}, "witness4")
 }
 
 // fixed multi-step sequences (independent of the seed)
@@ -908,6 +910,9 @@ func (g *gen) fixedSequences() {
 	t = g.newTarget(false, "d")
 	g.w.createDir(t.path())
 	g.emit(t, &reqSpec{method: mPostFormPath, cs: 2, body: []byte{1, 2, 3, 4}}, "over-directory")
+	// the same and ?op=append onto the directory through the real autoChunk: 500 both
+	g.emit(t, &reqSpec{big: true, method: mPostFormPath, maxmbOpt: 1, body: []byte("hello")}, "over-directory")
+	g.emit(t, &reqSpec{big: true, method: mPostFormPath, maxmbOpt: 1, body: []byte("hello"), app: true}, "over-directory")
 	// success, then a permanent upload failure at the last partial chunk (two
 	// chunks stay behind), then success again on the same path
 	t = g.newTarget(false, "f")
@@ -921,7 +926,7 @@ func (g *gen) fixedSequences() {
 
 func main() {
 	out := hx.Flags("C25", 150)
-	out.Rule = "sequences of 1-4 write requests on one path through the real filer write handlers over leveldb2 with a fake master (Assign, volume locations) and a fake volume server (writes through operation.HttpClient, reads through a real HTTP listener); Small cases: chunk size in {1,2,3,4,5,8,16} BYTES entered through the verif hook (doPutAutoChunk/doPostAutoChunk called with an explicit chunk size), saveToFilerLimit in {0,1,cs-1,cs,cs+1,2cs+1,100}, body lengths around 0/limit/chunk multiples, body ending Eof / read error (separately or together with the last bytes), methods PUT / POST multipart (dir URL, path URL; part file name = last path element / different / absent) / POST raw, op=append, pre-states of the path: missing, HTTP-created, gRPC-created (FileSize attribute 0 / extent-1 / extent / above, holes), a DIRECTORY (with missing / file / directory below it under the file name), a regular FILE as parent directory; cipher on/off, compressible and binary contents, scripted failures (all assigns, one chunk always, one chunk once; any chunk index incl. the last partial one), chunk 0 uploaded slower than the others in 1/4 of the cases; observed: status, both candidate paths (entry, file/directory), chunks handed to DeleteChunks, chunks left unreferenced, full and ranged GET through the real read handler; Big cases: the same through filerHandler/PostHandler/autoChunk with maxMB 1 or 2 (and a few rejected values: 0, negative, 2048, 4097) and bodies of 0,1,limit+-1,1MiB+-1,2MiB+-1,2.5MiB (lengths, offsets, CRC32s, status code to Coq); the first 7 cases are the fixed inputs on which the unrepaired code failed (former findings 0-3), cases 7-8 the witnesses of known finding 0 (append onto a directory), then 15 fixed multi-step cases (redirect into a directory, PUT below a file, POST over a directory, failure after success on one path); non-trivial = status 201 with a non-empty body and a stored entry; distinct = canonical request parameters + body CRC + pre-state shape of both paths"
+	out.Rule = "sequences of 1-4 write requests on one path through the real filer write handlers over leveldb2 with a fake master (Assign, volume locations) and a fake volume server (writes through operation.HttpClient, reads through a real HTTP listener); Small cases: chunk size in {1,2,3,4,5,8,16} BYTES entered through the verif hook (doPutAutoChunk/doPostAutoChunk called with an explicit chunk size), saveToFilerLimit in {0,1,cs-1,cs,cs+1,2cs+1,100}, body lengths around 0/limit/chunk multiples, body ending Eof / read error (separately or together with the last bytes), methods PUT / POST multipart (dir URL, path URL; part file name = last path element / different / absent) / POST raw, op=append, pre-states of the path: missing, HTTP-created, gRPC-created (FileSize attribute 0 / extent-1 / extent / above, holes), a DIRECTORY (with missing / file / directory below it under the file name), a regular FILE as parent directory; cipher on/off, compressible and binary contents, scripted failures (all assigns, one chunk always, one chunk once; any chunk index incl. the last partial one), chunk 0 uploaded slower than the others in 1/4 of the cases; observed: status, both candidate paths (entry, file/directory), chunks handed to DeleteChunks, chunks left unreferenced, full and ranged GET through the real read handler; Big cases: the same through filerHandler/PostHandler/autoChunk with maxMB 1 or 2 (and a few rejected values: 0, negative, 2048, 4097) and bodies of 0,1,limit+-1,1MiB+-1,2MiB+-1,2.5MiB (lengths, offsets, CRC32s, status code to Coq); the first 9 cases are the fixed inputs on which the unrepaired code failed (former findings 0-3; cases 7-8: ?op=append onto a directory, now refused with 500), then 15 fixed multi-step cases (redirect into a directory, PUT below a file, POST over a directory, failure after success on one path); non-trivial = status 201 with a non-empty body and a stored entry; distinct = canonical request parameters + body CRC + pre-state shape of both paths"
 	g := &gen{w: newWorld(), out: out}
 	defer g.w.close()
 	g.witnesses()
